@@ -20,7 +20,7 @@ ENV = dict(os.environ, UGO_REPO=os.environ.get("SEED_REPO", "/repo"), GOFLAGS="-
 PKGDIR = {"ugo": ".", "ugo_test": ".", "json": "stdlib/json", "json_test": "stdlib/json", "encoder": "encoder",
           "encoder_test": "encoder", "parser": "parser", "parser_test": "parser", "time": "stdlib/time",
           "time_test": "stdlib/time", "strings": "stdlib/strings", "strings_test": "stdlib/strings",
-          "fmt": "stdlib/fmt", "fmt_test": "stdlib/fmt", "registry": "registry", "registry_test": "registry"}
+          "fmt": "stdlib/fmt", "fmt_test": "stdlib/fmt", "registry": "registry", "registry_test": "registry", "importers": "importers", "importers_test": "importers"}
 
 
 def sh(cmd, cwd=None, timeout=1800):
